@@ -68,7 +68,9 @@ impl<'a> Display<'a> {
         }
 
         let dot = if it.peek().is_some() {
-            true
+            // Integer digits are being cut off, that only calls for a
+            // continuation if something other than zeros is lost.
+            it.clone().any(|d| d != '0') || !rem.is_zero()
         } else {
             let remaining = self.spec.limit - used;
 
@@ -78,11 +80,9 @@ impl<'a> Display<'a> {
                 for d in (&mut it).take(remaining) {
                     fmt::Display::fmt(&d, f)?;
                 }
-
-                it.next().is_some()
-            } else {
-                false
             }
+
+            !rem.is_zero()
         };
 
         if dot && self.spec.show_continuation {
@@ -156,10 +156,13 @@ impl fmt::Display for Display<'_> {
         let mut takes_exp = true;
         let mut n = self.spec.limit;
 
-        for d in emit(&mut rem, &den) {
-            if n == 0 {
-                break;
-            }
+        // NB: only pull a digit once we know there's room for it, otherwise it
+        // is lost from the remainder which decides on the continuation mark.
+        while n > 0 {
+            let d = match emit(&mut rem, &den).next() {
+                Some(d) => d,
+                None => break,
+            };
 
             if d.is_zero() && takes_exp {
                 exp -= 1;
